@@ -61,6 +61,7 @@ def rule_wrapper(c):
 def rule_harness(c, NA, prefix=None, minn=0):
     D = ['/* generated harness (C15): %s on symbolic bytes */' % c['rule'],
          '#define VF_ALPHABET "0011223456789999+-a"',
+         '#define VF_STRING_SELF_T struct S_class_std____cxx11__basic_string   /* lib/models.h: std::string is a complete type in these units */',
          '#define NA %d' % NA,
          '#define C15_W(v) w_%s_##v' % c['name'],
          '#define C15_SIGNED %d' % (1 if c['signed'] else 0),
